@@ -146,6 +146,50 @@ def r3_per_config(rep, tier):
     rep.cur_config = None
 
 
+def r5_order_sensitive(rep):
+    """results must not depend on the iteration order of toml::Map, which is the one thing preserve_order changes"""
+    R = rep.rule('C18/R5', 'no position-sensitive consumption of a toml::Map iteration in library code: `enumerate` / `zip` / `nth` / `position` / `last` / '
+                 '`first` over the entries of a toml::Map (sorted by default, insertion-ordered under preserve_order) would make a verdict or a value '
+                 'depend on the feature; order-insensitive uses (for-each, collect into a map, find by key, any / all) are fine', floor=1)
+    f = Facts('default')
+    MAPT = ('toml::map::Map<', 'toml::map::IntoIter', 'toml::map::Iter<', 'toml::map::IterMut<', 'toml::map::Keys<', 'toml::map::Values<')
+    SENS = {'enumerate', 'zip', 'nth', 'position', 'rposition', 'last', 'rev', 'skip', 'take', 'step_by', 'first', 'next_back', 'reduce', 'fold', 'scan', 'windows', 'chunks', 'is_sorted'}
+    n_iter = 0
+    bad = []
+    for d, b in sorted(f.bodies.items()):
+        if not (d.startswith('toml::') or d.startswith('<toml::')) or '::test' in d or b.get('derived'):
+            continue
+        if d.startswith('toml::map::') or d.startswith('<toml::map::'):
+            continue        # the map's own delegating impls
+        for n in walk(b['body']):
+            if n.get('k') != 'mcall' or n.get('name') not in SENS:
+                continue
+            # is the receiver chain rooted in an iteration of a toml::Map?
+            x = n['recv']
+            rooted = False
+            for _ in range(12):
+                x = peel(x)
+                t = x.get('t') or ''
+                if any(m in t for m in MAPT):
+                    rooted = True
+                    break
+                if x.get('k') == 'mcall':
+                    x = x['recv']
+                else:
+                    break
+            if rooted:
+                bad.append((d, n['name'], n.get('l'), f.loc(b, n)))
+        n_iter += sum(1 for n in walk(b['body']) if n.get('k') == 'mcall' and n.get('name') in ('iter', 'into_iter', 'iter_mut', 'keys', 'values') and any(m in (peel(n['recv']).get('t') or '') for m in MAPT))
+        n_iter += sum(1 for n in walk(b['body']) if n.get('k') == 'call' and (peel(n.get('f', {})).get('path') or '').endswith('IntoIterator::into_iter') and n.get('args')
+                      and any(m in (peel(n['args'][0]).get('t') or '') for m in MAPT))
+    rep.check(R, 'toml|map-iterations', n_iter >= 3, f'{n_iter} iterations over toml::Map found in the toml crate', f'only {n_iter} iterations over toml::Map found: the query is broken')
+    for d, name, l, loc in bad:
+        rep.bad(R, f'{d}|{name}', f'`{d}` applies `{name}` to an iteration over a toml::Map: the result depends on whether the map is sorted (default) or insertion-ordered '
+                f'(preserve_order), so the same input gives different verdicts / values in the two configurations', loc)
+    if not bad:
+        rep.ok(R, 'toml|no-position-sensitive-use', 'none found')
+
+
 def r4_unbounded(rep):
     R = rep.rule('C18/R4', 'under `unbounded` the recursion limit is really compiled out: RecursionCheck has no counter field and enter / exit / '
                  'check_depth cannot fail; without it they are present (C05)', floor=4)
@@ -183,6 +227,7 @@ def run(tier):
         r2_census(rep, repo_root())
         r3_per_config(rep, tier)
         r4_unbounded(rep)
+        r5_order_sensitive(rep)
     except AnalysisIncomplete as e:
         rep.incomplete('C18/analysis', 'rules', str(e))
     except Exception:
